@@ -42,9 +42,13 @@
                           live reconnect loop (a leaked mark blocks dialing that node for ever)
      ConnsCovered         every conns entry belongs to a connection that is pending, in the PeerSet, or in the
                           hands of a thread that will clean it up; ConnsAtRest: at rest conns = the connections of
-                          the PeerSet members (so that the same address / IP can connect again after a removal,
-                          and so that the duplicate-IP filter sees every live connection)
+                          the PeerSet members (so that the same address / IP can connect again after a removal);
+                          MembersHaveConn: every live connection (PeerSet member, peer being added, pending one)
+                          that nobody is stopping has its entry (the duplicate-IP filter sees every live connection)
      InboundLimit         #inbound, non-unconditional PeerSet members <= MaxInbound; UnconditionalExempt
+     StaleErrStopIsNoop   StopPeerForError on a peer that is not running does nothing
+     RedialAtRest         (safety face of Redial) at rest no persistent peer that was stopped for error is left
+                          without a dial attempt made / witnessed or a reconnect loop that will make one
      Redial (liveness)    after a persistent peer was stopped for error the Switch dials it again, or finds it being
                           dialled / connected again, under weak fairness of the threads  ["If the peer is persistent,
                           it will attempt to reconnect"].  NOT claimed: that the node is connected in the end - a
@@ -60,7 +64,11 @@
                             NEW instance of the same node
      AsIs_NoLifecycleLock    addPeer continues with AddPeer on the reactors after the peer was stopped and
                             removed by a concurrent StopPeerForError (no lock spans Add..AddPeer / RemovePeer..Remove)
-     AsIs_MarksNotAtomic    (only with SplitMarks) check-then-set on dialing / reconnecting is not atomic
+     AsIs_MarksNotAtomic    (only with SplitMarks) check-then-set on dialing / reconnecting is not atomic: two
+                            DialPeerWithAddress / two reconnect loops for one node get past the check together
+   The repair (proposed-fixes/SWITCH-peer-lifecycle-races.diff): stopAndRemovePeer starts with peer.Stop() and
+   returns when the peer was stopped already; one mutex spans addPeer as a whole and the RemovePeer loop with
+   peers.Remove; one mutex makes the two check-then-set pairs atomic.
    The Weak_* switches each drop one guard the way a regression would; TLC must refute each (non-vacuity).      *)
 EXTENDS Integers, Sequences, FiniteSets, TLC
 
@@ -270,7 +278,8 @@ SpawnDial(S, t, id) ==
    with a reference to an instance it got through AddPeer / Receive - possibly a stale one.
    repaired code: stopAndRemovePeer begins with peer.Stop() and returns when the peer was stopped already.      *)
 SpawnStop(S, t, i, why) ==
-  LET S0 == SetT([S EXCEPT !.ns = @ + 1], t, [NoThread EXCEPT !.k = "stop", !.id = S.inst[i].id, !.i = i, !.why = why]) IN
+  LET S0 == SetT([S EXCEPT !.ns = @ + 1], t, [NoThread EXCEPT !.k = "stop", !.id = S.inst[i].id, !.i = i, !.why = why,
+                                                               !.tries = IF Running(S, i) THEN 0 ELSE 1]) IN   \* tries = 1: called on a stopped peer
   IF why = "err" /\ ~Running(S, i) /\ ~Weak_StaleStopGuardDropped THEN Done(S0, t, "noop")
   ELSE IF ~AsIs_StopNotExclusive
     THEN IF ~Running(S, i) THEN Done(S0, t, "noop")
@@ -359,11 +368,20 @@ InboundLimit(S) ==
   Cardinality({n \in NodeIDs : S.peers[n] # 0 /\ ~S.inst[S.peers[n]].out /\ n \notin Unconditional}) <= MaxInbound
 UnconditionalExempt(S) == S.thr["acc"].pc = "CleanupL" => S.thr["acc"].id \notin Unconditional
 
-PropNames == <<"CallbackOrder", "CallbackStates", "PeerSetCoversActive", "SetMembersStarted", "NoZombieAtRest", "OneDialPerID",
+\* safety face of Redial: when everything is at rest no persistent peer that was stopped for error is left without
+\* a dial attempt made / witnessed or a reconnect loop that will make one
+RedialAtRest(S) ==
+  AtRest(S) => \A n \in Persistent : S.redial[n] \/ \E t \in RecTids : S.thr[t].id = n /\ S.thr[t].pc = "Sleep"
+
+\* StopPeerForError on a peer that is not running does nothing ("if !peer.IsRunning() return")
+StaleErrStopIsNoop(S) ==
+  \A t \in StopTids : (S.thr[t].why = "err" /\ S.thr[t].tries = 1) => S.thr[t].pc \notin {"Cleanup", "Rem"}
+
+PropNames == <<"StaleErrStopIsNoop", "RedialAtRest", "CallbackOrder", "CallbackStates", "PeerSetCoversActive", "SetMembersStarted", "NoZombieAtRest", "OneDialPerID",
                "OneReconnectLoop", "NoOrphanMarks", "ConnsCovered", "ConnsAtRest", "MembersHaveConn", "InboundLimit",
                "UnconditionalExempt">>
 Holds(S, p) ==
-  CASE p = "CallbackOrder" -> CallbackOrder(S) [] p = "CallbackStates" -> CallbackStates(S)
+  CASE p = "StaleErrStopIsNoop" -> StaleErrStopIsNoop(S) [] p = "RedialAtRest" -> RedialAtRest(S) [] p = "CallbackOrder" -> CallbackOrder(S) [] p = "CallbackStates" -> CallbackStates(S)
     [] p = "PeerSetCoversActive" -> PeerSetCoversActive(S) [] p = "SetMembersStarted" -> SetMembersStarted(S)
     [] p = "NoZombieAtRest" -> NoZombieAtRest(S) [] p = "OneDialPerID" -> OneDialPerID(S)
     [] p = "OneReconnectLoop" -> OneReconnectLoop(S) [] p = "NoOrphanMarks" -> NoOrphanMarks(S)
